@@ -54,6 +54,44 @@ def twice_diff(g: gen.Gen, r):
     return g.expr(r.choice([2, 3]))
 
 
+def hessian_fd_witness(e, V, hf, rng):
+    """Concrete failing input: a regular point where an entry of the compiled Hessian differs from a second central
+    difference of the expression's own evaluate() (two step sizes must agree for the point to count as regular)."""
+    names = [v.name for v in V]
+    def fd(pt, a, b, h):
+        def f(da, db):
+            q = dict(pt); q[names[a]] += da; q[names[b]] += db
+            return common.fval(e.evaluate(q))
+        vals = [f(h, h), f(h, -h), f(-h, h), f(-h, -h)]
+        if None in vals:
+            return None
+        return (vals[0] - vals[1] - vals[2] + vals[3]) / (4 * h * h)
+    for _ in range(12):
+        pt = common.pick_point(rng, names)
+        x = np.array([pt[nm] for nm in names], dtype=float)
+        with np.errstate(all="ignore"), warnings.catch_warnings():
+            warnings.simplefilter("ignore")
+            try:
+                M = np.asarray(hf(x), dtype=float)
+            except Exception:
+                continue
+            if M.shape != (len(names), len(names)) or not np.all(np.isfinite(M)):
+                continue
+            for a in range(len(names)):
+                for b in range(len(names)):
+                    try:
+                        d1, d2 = fd(pt, a, b, 2.0 ** -7), fd(pt, a, b, 2.0 ** -8)
+                    except Exception:
+                        continue
+                    if d1 is None or d2 is None:
+                        continue
+                    tol = 1e-3 * max(1.0, abs(d2)) + 8 * abs(d1 - d2)
+                    if abs(d1 - d2) <= 1e-3 * max(1.0, abs(d2)) and abs(M[a, b] - d2) > tol:
+                        return {"point": pt, "entry": [names[a], names[b]], "compiled": float(M[a, b]), "second_central_difference": d2,
+                                "tolerance": tol}
+    return None
+
+
 def run(rep: vk.Report):
     vk.proof_stage(rep, "C17", extra_trusted=["Interval library enclosure (SemI.evalI_correct) for the numeric channel"])
     rng = common.rng_for(rep.seed, "C17")
@@ -61,32 +99,39 @@ def run(rep: vk.Report):
     import optyx.core.compiler as C
     from optyx import Variable
     from optyx.problem import _variable_order_key
-    n = 220 if rep.tier == "quick" else 6000
+    n = 120 if rep.tier == "quick" else 6000
     trees = Cases("hess-tree", IMPORTS, "expr * list string * list (list expr) * string", TREE_CHECKER, defs=DEFS)
     nums, nmeta = [], []
     paths = {}
     asym = 0
     errors = {}
     fixed = common.vectorised_worklist()
-    for i in range(n + len(fixed)):
-        r = random.Random(rng.random())
-        g = gen.Gen(r, profile=r.choice(["poly", "smooth", "smooth"]), pool=gen.Pool(r, with_matrices=(r.random() < 0.3)))
-        if i < len(fixed):
-            e, V = fixed[i][0], list(fixed[i][1])
-        else:
+    def sources():
+        for f in fixed:
+            yield None, f[0], list(f[1])
+        for g, e in common.corpus(rng, rep.tier, 0, focus_profile="all", focus_scale=0.6, pool_kwargs={"with_matrices": False}):
+            yield g, e, None
+        for _ in range(n):
+            r0 = random.Random(rng.random())
+            g = gen.Gen(r0, profile=r0.choice(["poly", "smooth", "smooth"]), pool=gen.Pool(r0, with_matrices=(r0.random() < 0.3)))
             try:
-                e = twice_diff(g, r)
+                yield g, twice_diff(g, r0), None
             except Exception:
                 continue
+
+    keep = []
+    param_updates = 0
+    for g, e, V in sources():
+        r = g.rng if g is not None else random.Random(rng.random())
+        if V is None:
             vs = sorted(e.get_variables(), key=_variable_order_key)
             if not vs or len(vs) > 4:
                 continue
-            V = list(vs)
             mode = r.random()
-            if mode < 0.3:
-                r.shuffle(V)
-            elif mode < 0.5:
-                V = V + [Variable("extra0")]
+            if mode < 0.4:
+                V = list(vs)
+            else:
+                V = common.orders(vs, [Variable("extra0")] if r.random() < 0.4 else [], r)
         S = ser.Ser()
         C._compile_cached.cache_clear()
         try:
@@ -105,9 +150,16 @@ def run(rep: vk.Report):
         names = [v.name for v in V]
         trees.add(f"({te}, {ser.lst(ser.s(nm) for nm in names)}, {ser.lst(ser.lst(row) for row in th)}, {ser.s(hf.__name__)})",
                   {"V": names, "path": hf.__name__, "expr": repr(e)[:300]})
+        keep.append((e, V, hf))
         params = common.params_of(e)
-        ppts = {nm: p.value for nm, p in params.items()}
-        for _ in range(2):
+        for rnd in range(3 if params else 2):
+            if rnd == 2:
+                # Parameters re-set AFTER compile_hessian: entries without variables are not constants
+                for nm, pp in params.items():
+                    if np.ndim(pp.value) == 0:
+                        pp.set(float(r.choice([-1.5, 0.25, 2.0, 3.5])) + 0.0625 * r.randrange(8))
+                        param_updates += 1
+            ppts = {nm: float(p.value) for nm, p in params.items() if np.ndim(p.value) == 0}
             pt = common.pick_point(r, names)
             x = np.array([pt[nm] for nm in names], dtype=float)
             with np.errstate(all="ignore"), warnings.catch_warnings():
@@ -131,11 +183,17 @@ def run(rep: vk.Report):
                                   "path": hf.__name__})
     tfails = trees.run()
     nfails, nund = common.run_classify(IMPORTS + " SemI HarnessI", DEFS, NUM_TYPE, nums, NUM_CHECKER) if nums else ([], [])
+    tree_reports = searched = 0
     for i in tfails:
         model = trees.model_answer(i, lambda t: "match " + t + " with (e, V, _, _) => (compute_hessian ln2c ln10c e V, "
                                    "hname (compile_hessian ln2c ln10c gen_unary_hess e V)) end")
+        searched += 1
+        wit = hessian_fd_witness(keep[i][0], keep[i][1], keep[i][2], rng) if searched <= 40 else None
+        if (wit is None and tree_reports >= 6) or tree_reports >= 20:
+            continue              # a renamed / re-routed path with correct values: reported a few times, not once per case
+        tree_reports += 1
         rep.violation({"kind": "correspondence", "obligation": "Hessian entry trees / compile path = model", "case": trees.terms[i][:6000],
-                       "meta": trees.meta[i], "model": model, "witness": None}, concrete=False)
+                       "meta": trees.meta[i], "model": model, "witness": wit}, concrete=wit is not None)
     for i in nfails:
         rep.violation({"kind": "numeric", "obligation": "compiled Hessian entry within the enclosure of the model's second derivative",
                        "case": nums[i][:3000], "witness": nmeta[i]}, concrete=True)
@@ -147,6 +205,7 @@ def run(rep: vk.Report):
                    "all n^2 compiled entries at 2 dyadic points by interval enclosure, symmetry bitwise")
     cov["samples"] = [t[:500] for t in trees.terms[:2]] + [x_[:300] for x_ in nums[:2]]
     cov["path_histogram"] = dict(sorted(paths.items()))
+    cov["parameter_updates_after_compile"] = param_updates
     cov["numeric_entries"] = len(nums)
     cov["numeric_undecided"] = len(nund)
     cov["asymmetric_outputs"] = asym
